@@ -1,5 +1,6 @@
 import GV.Drv.Eval
 import GV.Eval.RefStmt
+import GV.Eval.FactsParams
 namespace GV.Drv
 open Lean GV.Eval
 
@@ -139,13 +140,7 @@ def ruleOutJson (res : RuleOut) : Json :=
     and whether the dumped AST has the shape `lower` predicts (positions = lines included). -/
 def evalCaseFull (j : Json) : Json :=
   let env0 : Env := { base := (jArr j "env").map parseObj, vars := [], trace := [] }
-  let rs := GV.Generated.Facts.recoverSites
-  let P : Params := { maxLoop := GV.Generated.Facts.maxExecuteNum,
-                      ruleRecover := rs.contains "RuleEntity.Execute",
-                      assignRecover := rs.contains "Assignment.Evaluate",
-                      funcRecover := rs.contains "FunctionCall.Evaluate",
-                      methodRecover := rs.contains "MethodCall.Evaluate",
-                      threeRecover := rs.contains "ThreeLevelCall.Evaluate" }
+  let P : Params := factsParams
   -- the specification always recovers: a fault is an error, never a panic
   let SP : Params := refParams { P with ruleRecover := true, assignRecover := true, funcRecover := true,
                                         methodRecover := true, threeRecover := true, maxLoop := 10000 }
@@ -163,8 +158,10 @@ def evalCaseFull (j : Json) : Json :=
       let got := showStmts stmts
       let shape := if want == got then Json.bool true else Json.mkObj [("want", Json.str want), ("got", Json.str got)]
       let wf := Json.bool body.WF
+      -- the hypotheses of the end-to-end theorem, checked on every case
+      let wk := Json.bool (menv.wkb && senv.wkb && body.LitWK)
       ({ mres.env with vars := [] }, senv', mouts ++ [ruleOutJson mres], souts ++ [ruleOutJson sres],
-       shapes ++ [Json.mkObj [("shape", shape), ("wf", wf)]])
+       shapes ++ [Json.mkObj [("shape", shape), ("wf", wf), ("wk", wk)]])
   let (_, _, mouts, souts, shapes) := (jArr j "rules").foldl step (env0, env0, [], [], [])
   Json.mkObj [("i", jObj j "i"), ("model", Json.arr mouts.toArray), ("spec", Json.arr souts.toArray),
               ("shapes", Json.arr shapes.toArray)]
